@@ -188,6 +188,8 @@ def c12(tier, seed):
     commit_mc(res, "Commit+SyncFaultOnMark(F-C12-4)", consts={"Sw": '{"SyncFaultOnMark"}'}, inv=["FaultAtomic"], expect="FaultAtomic")
     fams = [("fail", []), ("failkv", ["-mode", "keyval"]), ("failkv", ["-mode", "keyonly"])]
     shards = [["%proto"] + a for a in fam_shards(fams, seed, 2 if q else 24, 3 if q else 4, 40 if q else 120)]
+    # ... and across Merge: what a failed transaction left in the files stays without effect when Merge rewrites them
+    shards += fam_shards([("failmerge", [])], seed, 2 if q else 12, 3 if q else 4, 40 if q else 100)
     rs = core.drive_and_validate(res, shards, core.dev_set(), "a transaction that ended without a successful commit changed a read (now or after reopen)",
                                  "histories with rollbacks, oversized entries, injected write/sync faults, read-only transactions calling mutators, calls on finished transactions")
     res.cov["samples"] = core.sample_events(rs[0]["trace"], 6, ops={"commit", "rollback"})
